@@ -32,6 +32,13 @@ Section Vertical.
   Definition spec_vadv (w x : nat -> F) (n : nat) : F :=
     - ((if Nat.ltb (S n) (cK c) then w n * spec_ddsigma x n else 0)
        + (if Nat.eqb n 0 then 0 else w (n - 1)%nat * spec_ddsigma x (n - 1))) / two.
+  (** the same tendency with first-order UPWIND differences (the public option
+      [vertical_advection = upwind_vertical_advection]): downward motion (sigma_dot > 0) at the upper
+      boundary brings in the difference above, upward motion (sigma_dot < 0) at the lower boundary the
+      difference below; no flux through top and bottom *)
+  Definition spec_vadv_upwind (w x : nat -> F) (n : nat) : F :=
+    - (fmax (if Nat.eqb n 0 then 0 else w (n - 1)%nat) 0 * (if Nat.eqb n 0 then 0 else spec_ddsigma x (n - 1))
+       + fmin (if Nat.ltb (S n) (cK c) then w n else 0) 0 * (if Nat.ltb (S n) (cK c) then spec_ddsigma x n else 0)).
   (** omega/p at layer n, Durran 8.124; [ug] = u . grad ln ps, [g] = div + ug *)
   Definition spec_omega_p (g ug : nat -> F) (n : nat) : F :=
     ug n - (alpha (cK c) (cls c) n * spec_cum g n
